@@ -9,7 +9,7 @@ open Util
    L line : two overlapping Stop calls; chk_C18 must accept, the literal reading (chk_literal) does not (F18c). *)
 
 let string_of_lclause = function
-  | ClSinkAfterStop -> "sink_after_stop" | ClSyncAfterStop -> "emitsync_after_stop" | ClStopGrace -> "stop_grace_expired"
+  | ClSinkAfterStop -> "sink_after_stop" | ClSinkRunning -> "sink_running_after_stop" | ClSyncAfterStop -> "emitsync_after_stop" | ClStopGrace -> "stop_grace_expired"
   | ClStuck -> "stuck" | ClLeak -> "goroutine_leak" | ClLoserEarly -> "loser_stop_returns_early"
 
 let split_hash (toks : string list) : string list list =
@@ -174,7 +174,8 @@ let handle (toks : string list) : string =
                   then "chk panic_not_isolated model=" ^ String.concat " " model
                   else "diff script model=" ^ String.concat " " model)
        | _ -> "bad line")
-  | "R" :: _kind :: _strat :: _seed :: "#" :: evs ->
+  | "P" :: _ :: _ :: _ :: _ :: "#" :: evs
+  | "R" :: _ :: _ :: _ :: "#" :: evs ->
       let tr = List.filter_map parse_event evs in
       if List.length tr <> List.length evs then "bad event token" else
       if List.exists (fun t -> String.length t > 3 && String.sub t 0 3 = "ye:" && String.sub t (String.length t - 2) 2 = ":2") evs
